@@ -1,4 +1,150 @@
-import XgiModel.C15.Simp
+/-
+  C15 — Simpliciality measures match their combinatorial definitions.
+
+  Property theorems about the transcription in `XgiModel/C15/Simp.lean` (the functions the driver runs).
+  Hypotheses: `Dom h` = well-formed static network (distinct node and edge IDs, members are duplicate-free
+  lists of nodes), no empty edge, labels all ints or all strs; `1 ≤ minSize` where the empty node set would
+  otherwise be enumerated as a sub-face.  Repeated edges are *not* excluded: every theorem holds for them too
+  (edges counted with multiplicity, node sets counted once), so the property's "no repeated edges" is implied.
+  The right-hand sides are the brute-force `spec…` functions (plain enumeration of all node subsets).
+-/
+import XgiModel.C15.LemmasFinal
+
 namespace Xgi.C15
-theorem placeholder : True := trivial
+
+/-- **trie_spec**: the trie built by `build_trie(words)` finds `w` iff the sorted tuple of `w` is the sorted
+    tuple of one of the words (pure statement about the transcribed `insert`/`search`, any labels). -/
+theorem trie_spec (ws : List (List PyId)) (w : List PyId) :
+    (buildTrie ws).search w = true ↔ sorted w ∈ ws.map sorted := by
+  rw [search_buildTrie]; simp
+
+/-- **trie_spec_set**: on orderable labels and duplicate-free words the trie answers "is this node set a word
+    (as a set)". -/
+theorem trie_spec_set {S : List PyId} (hS : Orderable S) (ws : List (List PyId))
+    (hws : ∀ e ∈ ws, e.Nodup ∧ ∀ x ∈ e, x ∈ S) (w : List PyId) (hw : w.Nodup) :
+    (buildTrie ws).search w = true ↔ ∃ e ∈ ws, ∀ x, x ∈ e ↔ x ∈ w := by
+  rw [trie_spec, List.mem_map]
+  constructor
+  · rintro ⟨e, he, hs⟩
+    exact ⟨e, he, (sorted_eq_iff hS (hws e he).2 (hws e he).1 hw).mp hs⟩
+  · rintro ⟨e, he, hs⟩
+    exact ⟨e, he, (sorted_eq_iff hS (hws e he).2 (hws e he).1 hw).mpr hs⟩
+
+/-- **maximal_spec**: the loop of `EdgeView.maximal()` returns, in view order, exactly the edges that are not
+    properly contained in another edge (and does not raise). -/
+theorem maximal_spec {h : Net} (D : Dom h) : maximalEdges h = some (specMaximal h) :=
+  maximalEdges_eq D.wf D.nonempty
+
+/-- **sed_eq**: `simplicial_edit_distance(normalize=False)` is NaN when there is no eligible maximal edge and
+    otherwise the number of node sets of size ≥ min_size that lie inside an eligible maximal edge and are not
+    edges — the per-face count minus the faces reachable through an earlier overlapping face counts each once. -/
+theorem sed_eq {h : Net} (D : Dom h) (m : Nat) (hm : 1 ≤ m) (x : Bool) :
+    simplicialEditDistance h m x false =
+      some (if (specFaces h m x).isEmpty then .undefined else .val ((specSED h m x : Nat) : Rat)) :=
+  sed_raw_eq D m hm x
+
+/-- **sed_norm_eq**: the normalised distance is `ms / (|E_{≥min}| − |eligible maximal| + ms)` of that count
+    (NaN when the denominator is 0 or there is no eligible maximal edge). -/
+theorem sed_norm_eq {h : Net} (D : Dom h) (m : Nat) (hm : 1 ≤ m) (x : Bool) :
+    simplicialEditDistance h m x true = some (specSEDNorm h m x) :=
+  sed_norm_eq' D m hm x
+
+/-- **sf_eq**: `simplicial_fraction` is the share of eligible edges all of whose node subsets of size ≥ min_size
+    are edges (NaN when there is no eligible edge). -/
+theorem sf_eq {h : Net} (D : Dom h) (m : Nat) (x : Bool) : simplicialFraction h m x = specSF h m x :=
+  simplicialFraction_eq D.wf D.ord m x
+
+/-- **mfed_eq**: `mean_face_edit_distance` is the average over the eligible maximal edges of the share
+    (normalize) or number of proper sub-faces of size ≥ min_size that are not edges; 0 when there is none. -/
+theorem mfed_eq {h : Net} (D : Dom h) (m : Nat) (hm : 1 ≤ m) (x nz : Bool) :
+    meanFaceEditDistance h m x nz = some (specMFED h m x nz) :=
+  meanFaceEditDistance_eq D.wf D.nonempty D.ord m hm x nz
+
+/-- **range** (edit distance and edit simpliciality): NaN or in [0, 1]. -/
+theorem range_sed {h : Net} (D : Dom h) (m : Nat) (hm : 1 ≤ m) (x : Bool) :
+    ∃ s, simplicialEditDistance h m x true = some s ∧ s.InUnit ∧
+      editSimpliciality h m x = some s.oneMinus ∧ s.oneMinus.InUnit := by
+  refine ⟨specSEDNorm h m x, sed_norm_eq D m hm x, specSEDNorm_inUnit h m x, ?_, ?_⟩
+  · simp [editSimpliciality, sed_norm_eq D m hm x]
+  · have := specSEDNorm_inUnit h m x
+    cases hs : specSEDNorm h m x with
+    | undefined => simp [Score.oneMinus, Score.InUnit]
+    | val q =>
+      rw [hs] at this
+      simp only [Score.InUnit, Score.oneMinus] at this ⊢
+      constructor <;> linarith [this.1, this.2]
+
+/-- **range** (simplicial fraction): NaN or in [0, 1]. -/
+theorem range_sf {h : Net} (D : Dom h) (m : Nat) (x : Bool) : (simplicialFraction h m x).InUnit := by
+  rw [sf_eq D]; exact specSF_inUnit h m x
+
+/-- **range** (normalised mean face edit distance and face edit simpliciality): in [0, 1]. -/
+theorem range_mfed {h : Net} (D : Dom h) (m : Nat) (hm : 1 ≤ m) (x : Bool) :
+    ∃ q, meanFaceEditDistance h m x true = some q ∧ 0 ≤ q ∧ q ≤ 1 ∧
+      faceEditSimpliciality h m x = some (1 - q) ∧ 0 ≤ 1 - q ∧ 1 - q ≤ 1 := by
+  have hb := specMFED_unit h m x
+  refine ⟨specMFED h m x true, mfed_eq D m hm x true, hb.1, hb.2, ?_, by linarith [hb.2], by linarith [hb.1]⟩
+  simp [faceEditSimpliciality, mfed_eq D m hm x true]
+
+/-- **closed_one** (edit simpliciality): on a hypergraph that is downward closed above min_size the score is 1;
+    it is NaN exactly when there is no eligible maximal edge or every edge of size ≥ min_size is one (0/0). -/
+theorem closed_one_es {h : Net} (D : Dom h) (m : Nat) (hm : 1 ≤ m) (x : Bool) (hc : downClosed h m = true) :
+    editSimpliciality h m x =
+      some (if (specFaces h m x).isEmpty ∨ (sizeGeq h.edges m).length ≤ (specFaces h m x).length
+        then .undefined else .val 1) := by
+  simp only [editSimpliciality, sed_norm_eq D m hm x, specSEDNorm_closed hc, Option.map_some]
+  split <;> simp [Score.oneMinus]
+
+/-- **closed_one** (face edit simpliciality): always 1 on downward-closed hypergraphs. -/
+theorem closed_one_fes {h : Net} (D : Dom h) (m : Nat) (hm : 1 ≤ m) (x : Bool) (hc : downClosed h m = true) :
+    faceEditSimpliciality h m x = some 1 := by
+  simp [faceEditSimpliciality, mfed_eq D m hm x true, specMFED_closed hc]
+
+/-- **closed_one** (simplicial fraction): 1, or NaN when there is no eligible edge. -/
+theorem closed_one_sf {h : Net} (D : Dom h) (m : Nat) (x : Bool) (hc : downClosed h m = true) :
+    simplicialFraction h m x =
+      if (h.edges.filter (fun p => decide (m + x.toNat ≤ p.2.length))).length = 0 then .undefined else .val 1 := by
+  rw [sf_eq D, specSF_closed hc]
+
+/-! ### non-vacuity: concrete networks in the domain, with the values the theorems give -/
+
+/-- {1,2,3}, {1,2}, {3,4} on nodes 1..4 (edge {1,3}, {2,3} missing) -/
+def ex1 : Net :=
+  { nodes := [.int 1, .int 2, .int 3, .int 4],
+    edges := [(.int 0, [.int 1, .int 2, .int 3]), (.int 1, [.int 1, .int 2]), (.int 2, [.int 3, .int 4])] }
+
+/-- the closure of {a,b,c} above size 2, string labels, unordered members -/
+def ex2 : Net :=
+  { nodes := [.str "c", .str "a", .str "b"],
+    edges := [(.str "e0", [.str "c", .str "a", .str "b"]), (.int 5, [.str "b", .str "a"]),
+              (.int 1, [.str "c", .str "a"]), (.int 2, [.str "c", .str "b"])] }
+
+theorem ex1_dom : Dom ex1 :=
+  ⟨by unfold Net.WF ex1; decide, by unfold ex1; decide, by unfold Orderable ex1; decide⟩
+theorem ex2_dom : Dom ex2 :=
+  ⟨by unfold Net.WF ex2; decide, by unfold ex2; decide, by unfold Orderable ex2; decide⟩
+
+example : simplicialEditDistance ex1 2 true false = some (.val 2) := by
+  rw [sed_eq ex1_dom 2 (by decide)]
+  have h1 : (specFaces ex1 2 true).isEmpty = false := by decide
+  have h2 : specSED ex1 2 true = 2 := by decide
+  simp [h1, h2]
+
+example : (specMaximal ex1).map (·.1) = [.int 0, .int 2] := by decide
+example : downClosed ex1 2 = false := by decide
+example : downClosed ex2 2 = true := by decide
+example : editSimpliciality ex2 2 true = some (.val 1) := by
+  rw [closed_one_es ex2_dom 2 (by decide) true (by decide)]
+  have h1 : (specFaces ex2 2 true).isEmpty = false := by decide
+  have h2 : ¬ (sizeGeq ex2.edges 2).length ≤ (specFaces ex2 2 true).length := by decide
+  simp [h1, h2]
+example : faceEditSimpliciality ex2 2 true = some 1 := closed_one_fes ex2_dom 2 (by decide) true (by decide)
+example : simplicialFraction ex2 2 true = .val 1 := by
+  rw [closed_one_sf ex2_dom 2 true (by decide)]
+  have : (ex2.edges.filter (fun p => decide (2 + true.toNat ≤ p.2.length))).length = 1 := by decide
+  rw [this]; rfl
+example : (buildTrie [[.int 3, .int 1], [.int 2]]).search [.int 1, .int 3] = true := by
+  rw [trie_spec_set (S := [.int 1, .int 2, .int 3]) (by unfold Orderable; decide) _ (by decide) _ (by decide)]
+  exact ⟨[.int 3, .int 1], by simp, by intro x; simp; tauto⟩
+
 end Xgi.C15
